@@ -617,6 +617,29 @@ FOCUS = {
 }
 
 
+def two_edits(seed, labels):
+    """(one_edit_states, two_edit_states) over a label set: every state reached by one, resp. exactly two different edits of the set."""
+    allowed = set(labels)
+    seen = {canon(seed)}
+    one, two = [], []
+    first = [(l, t, n) for l, t, n in succ_valid(seed) if l in allowed]
+    for l, t, n in first:
+        k = canon(n)
+        if k not in seen:
+            seen.add(k)
+            one.append((l, t, n))
+    for l1, t1, n1 in first:
+        for l2, t2, n2 in succ_valid(n1):
+            if l2 in allowed and l2 != l1:
+                k = canon(n2)
+                if k not in seen:
+                    seen.add(k)
+                    g1 = t1.get('multi') or (t1['cats'],)
+                    g2 = t2.get('multi') or (t2['cats'],)
+                    two.append((l1 + '+' + l2, _tags(cell=t1.get('cell'), cats=(), kind='two-edits', multi=tuple(g1) + tuple(g2)), n2))
+    return one, two
+
+
 def focus2(seed, field):
     """All states reached by one or two edits drawn from FOCUS[field] (labels are matched again after the first edit)."""
     allowed = set(FOCUS[field])
